@@ -704,6 +704,14 @@ func (e *Enc) evalCall(env *Env, n CCall, cur, old *State) Val {
 			e.evalFail(env, "unknown type %s", n.Args[0])
 		}
 		return Val{T: e.sorts.Zero(t), Typ: t}
+	case "ctxOwned":
+		v := arg(0)
+		ref := v.T
+		if e.sortOfVal(v) == "Slice" {
+			ref = "(sl_ref " + v.T + ")"
+		}
+		f := e.sc.DeclFun("sp_ctxOwned", []string{"Int"}, "Bool")
+		return Val{T: app(f, ref), Typ: tBool}
 	case "f2i":
 		f := e.sc.DeclFun("f2i", []string{"Real"}, "Int")
 		return Val{T: app(f, arg(0).T), Typ: tInt}
@@ -783,6 +791,9 @@ func exprTypeString(x CExpr) string {
 		return exprTypeString(n.X) + "." + n.Name
 	case CUnary:
 		return n.Op + exprTypeString(n.X)
+	case CStr:
+		// composite types the expression grammar cannot spell (map[string]any, []any) are quoted
+		return n.V
 	}
 	return x.String()
 }
